@@ -171,7 +171,7 @@ func CheckC17(c *Ctx) {
 	run := c.Run
 	c.resolveContainerFields()
 	run.Technique = "typed-AST lints with finite decision tables: ordering decisions in generic numeric code must use comparison operators (never the sign of a difference); Insert and search must route every ordering {<,=,>} consistently; every Ring index is reduced modulo the buffer length"
-	run.Explanation = "Conformance of Ring and Bst to the FIFO / multiset models under arbitrary histories is NOT decided. Three structural necessary conditions are: (1) no ordering decision on generic numeric values is taken from the sign of a difference (for integer element types the subtraction overflows: Bst[int8] holding -100 cannot find 100); (2) evaluated on the three orderings of (searched value, node value), Insert and searchNode send smaller keys to the same side, larger keys to the same side and searchNode stops on equality; (3) every index into Ring.buffer is begin/end or reduced modulo len(buffer), and begin/end advance only through nextIndex, whose body is (i+1) % len(buffer). Ring state invariant: `empty => begin == end` is established by NewRing and preserved on every path of every Ring method (each method's guarded commands, receiver fields as state); Put writes at end and Get/At read from begin, so an empty ring with different indices returns slots that were never filled."
+	run.Explanation = "Conformance of Ring and Bst to the FIFO / multiset models under arbitrary histories is NOT decided. Three structural necessary conditions are: (1) no ordering decision on generic numeric values is taken from the sign of a difference (for integer element types the subtraction overflows: Bst[int8] holding -100 cannot find 100); (2) evaluated on the three orderings of (searched value, node value), Insert and searchNode send smaller keys to the same side, larger keys to the same side and searchNode stops on equality; (3) every index into Ring.buffer is begin/end or reduced modulo len(buffer), and begin/end advance only through nextIndex, whose body is (i+1) % len(buffer). Ring state invariant: `empty => begin == end` is established by NewRing and preserved on every path of every Ring method (each method's guarded commands, receiver fields as state); Put writes at end and Get/At read from begin, so an empty ring with different indices returns slots that were never filled. (4) Tree link discipline: every store into a child link, the root or the value of an existing node in package helper is classified as attach (new node into a link that is nil on that path), splice (the link pointed at N, receives a child of N, and N's other child is nil: only N leaves the tree) or replace (value of the in-order neighbour, which is itself spliced out with the parent its search loop returned) and justified on the finite table of truth assignments to the pointer comparisons the function makes; the (node, parent) search loops are verified to record parent = node before every step."
 	run.Trusted = []string{"go/types", "finite ordering domain {<,=,>} (values are only compared)"}
 	hp := c.P.Pkg("helper")
 	if hp == nil {
@@ -258,6 +258,8 @@ func CheckC17(c *Ctx) {
 	// (3) Ring index discipline
 	c.ringDiscipline(info)
 	c.ringInvariant()
+	// (4) link-write discipline of the tree (removal)
+	c.bstLinks()
 }
 
 func (c *Ctx) bstAgreement(info *types.Info, ins, srch *ast.FuncDecl) {
